@@ -8,6 +8,10 @@ from . import common
 
 def main():
     common.ensure_built()
+    # warm the nightly build used for the MIR dump (C07, C16): 40-60 s cold, a few seconds afterwards
+    from . import mirsym
+    mir = mirsym.dump_mir()
+    print('MIR dump ok: %d lines' % mir.count('\n'))
     compileall.compile_dir(os.path.dirname(os.path.abspath(__file__)), quiet=1)
     print('setup ok: %s, %s' % (common.CGV_BIN, common.COMPLGEN_BIN))
     return 0
